@@ -77,6 +77,41 @@ impl<P: Payload + std::fmt::Display> Hook<P> for PrettyHook {
     }
 }
 
+/// C02: pretty printing every root into a bounded sink.  Output that keeps coming beyond any possible
+/// size of the rendering means the printer does not terminate (a printer that spins without writing
+/// is left to the call-return watchdog).
+pub struct PrintReturnsHook;
+
+impl<P: Payload + std::fmt::Display> Hook<P> for PrintReturnsHook {
+    fn after_step(&mut self, _ctx: &Ctx, st: &mut State<P>, _info: &StepInfo<P>, heavy: bool, _rng: &mut Rng, cov: &mut Cov) -> Vec<Finding> {
+        use std::fmt::Write as _;
+        if !heavy || st.steps % 4 != 0 {
+            return Vec::new();
+        }
+        let m = &st.model;
+        let mut out = Vec::new();
+        for h in m.live_handles() {
+            if m.parent(h).is_some() {
+                continue;
+            }
+            let id = m.nodes[h].id;
+            let n = m.subtree(h).len();
+            // every line: <= 4 columns per level + the longest payload line (< 64 bytes); <= 4 lines per node
+            let bound = n * 4 * (4 * n + 80) + 1024;
+            for mode in 0..2 {
+                let mut w = mon::LimitedWriter { left: bound };
+                let r = guarded(|| if mode == 0 { write!(w, "{}", id.debug_pretty_print(&st.arena)) } else { write!(w, "{:#?}", id.debug_pretty_print(&st.arena)) });
+                if matches!(r, Ok(Err(_))) && w.left == 0 {
+                    out.push(Finding::new(&["C02"], "print/output-does-not-end".into(), format!("pretty printing the {}-node tree of root {} produced more than {} bytes and was still going", n, h, bound)));
+                    return out;
+                }
+                cov.bump("bounded_prints");
+            }
+        }
+        out
+    }
+}
+
 // ======================================================================= C13
 
 fn v(ctx: &Ctx, sig: &str, detail: String, workload: &str, step: usize, ops: &[Op]) -> Option<Violation> {
